@@ -28,6 +28,8 @@ class Pair:
         self.ncorrupt = 0
         self.put_ok = False
         self.txn = 0
+        self.turn = "S"     # canonical entity loop: whose turn it is (kept across run_on calls)
+        self.calm = 0
 
     # ---- model predicates on the real objects ----
     def src_closed(self) -> bool:
@@ -60,6 +62,7 @@ class Pair:
         self.put_ok = e["ret"] == "true"
         self.txn += 1
         self.d_started = False
+        self.turn, self.calm = "S", 0
 
     def more_to_put(self) -> bool:
         return self.txn < 1 + len(self.w.cfg["more"])
@@ -141,6 +144,10 @@ class Pair:
             self.d_started = True
 
     def step(self, a: str, x: int) -> None:
+        if a in ("S", "Se"):
+            self.turn = "D"
+        elif a in ("D", "De"):
+            self.turn = "S"
         if a == "S":
             self.src_call(x == 1)
         elif a == "D":
@@ -170,7 +177,7 @@ class Pair:
         script = dict(script or {})
         seen = {"sd": 0, "ds": 0}
         dt = max(cfg["ackInt"], cfg["nakInt"], cfg["chkInt"])
-        turn, calm, idle = "S", 0, 0
+        turn, calm, idle = self.turn, self.calm, 0
         for _ in range(max_turns):
             if sibling is not None:
                 sibling()
@@ -182,6 +189,7 @@ class Pair:
                     return True
                 self.put(self.w.cfg["more"][self.txn - 1]["gap"])
                 turn, calm, idle = "S", 0, 0
+                self.turn, self.calm = turn, calm
                 continue
             if self.quiet() and calm >= 2:
                 if idle >= idle_ticks:
@@ -189,6 +197,7 @@ class Pair:
                 self.tick(dt)
                 idle += 1
                 calm = 0
+                self.calm = 0
                 continue
             n_ev = len(self.w.ev)
             if turn == "S":
@@ -214,6 +223,7 @@ class Pair:
                 calm, idle = 0, 0
             else:
                 calm = min(calm + 1, 2)
+            self.turn, self.calm = turn, calm
         return self.done() and not self.more_to_put()
 
 
